@@ -89,6 +89,13 @@ def shape_length(ctx, rule, gates):
             num, den = x[3][2], x[3][3]
             ok = bool(U.expr_calls(num, "cmp::min")) and bool(U.expr_calls(den, "cmp::max")) \
                 and not U.expr_calls(num, "cmp::max")
+        if not ok and x[0] == "binop" and x[1] == "Div":
+            # equivalent spelling (max - min) / max
+            num, den = x[2], x[3]
+            while num[0] == "cast":
+                num = num[2]
+            ok = num[0] == "binop" and num[1] == "Sub" and bool(U.expr_calls(num[2], "cmp::max")) and \
+                bool(U.expr_calls(num[3], "cmp::min")) and bool(U.expr_calls(den, "cmp::max"))
         key = "length-shape:%s" % g.body.id
         if ok:
             ctx.ok(rule, key, where(g.body, g.bi), "length gate has the shape 1 - min/max",
@@ -314,6 +321,16 @@ def dist_char_operand(ctx, dist, t):
     if p is None:
         return False
     defs = dist.defs().get(p["l"], [])
+    for _ in range(4):
+        # the comparison may be kept in a named local (`let same = ch1 == ch2`) and copied to the switch operand
+        if len(defs) == 1 and defs[0][0] == "assign" and defs[0][3]["rv"]["k"] == "use":
+            o_ = defs[0][3]["rv"]["op"]
+            p_ = o_.get("copy") or o_.get("move")
+            if p_ is None or p_["p"]:
+                break
+            defs = dist.defs().get(p_["l"], [])
+        else:
+            break
     for kind, bi, si, node in defs:
         if kind == "assign" and node["rv"]["k"] == "binop" and node["rv"]["op"] == "Eq":
             for side in ("a", "b"):
